@@ -26,6 +26,8 @@ RULE = (
     "x*c, x%c, keccak of words / of dynamic content, array length and elements, storage written by setUp, optional vm.assume; "
     "every second contract also has a counted loop with a symbolic trip count (while-shaped, and do-while-shaped whose back edge is "
     "the taken JUMPI side) failing only after exactly k iterations, run with a per-function --loop below / above k; "
+    "tests where one sibling path learns x == c1 and the other re-reads x from calldata and fails for x == c2 (flat / nested, "
+    "learning side explored first / last, x used directly, after arithmetic, through memory); "
     "a family of tests with several assertion-bearing sibling paths of identical shape (per-length branches of a bytes / uint256[] "
     "parameter, `if (a == k_i)` ladders) whose bodies assert L(x,y) == R(x,y) over symbolic products / quotients — valid on some "
     "siblings, violable on exactly one, in every position — run with --cache-solver (--solver-threads 1 and default) and without; "
@@ -221,7 +223,7 @@ def make_jobs(ctx, specs, combos, sweep=40):
             gen = e2e.gen_contract(random.Random(seed), name=name, pool=kw.get("pool", ()), ntests=kw.get("ntests", 3),
                                    bytes_sizes=kw.get("bytes_sizes"), array_sizes=kw.get("array_sizes"),
                                    panic_codes=kw.get("gen_panic_codes", (1,)), touch=kw.get("touch", False),
-                                   loops=kw.get("loops", False), siblings=kw.get("siblings"))
+                                   loops=kw.get("loops", False), siblings=kw.get("siblings"), subst=kw.get("subst"))
             cfg = {}
             if kw.get("panic_error_codes") is not None:
                 cfg["panic_error_codes"] = kw["panic_error_codes"]
@@ -241,6 +243,63 @@ def make_jobs(ctx, specs, combos, sweep=40):
                          "spec": {"seed": seed, "name": name, "kw": {k2: v for k2, v in kw.items() if k2 != "pool"},
                                   "pool": list(kw.get("pool", ()))}})
     return jobs
+
+
+def check_symbolic_panic_code(ctx):
+    """directed: `revert(Panic(code))` where the code is not a literal in the bytecode but a word computed from a parameter
+    (hand-assembled: mstore(0, 0x4e487b71 << 224); mstore(4, code); revert(0, 36)); variants: unconditional code = x,
+    guarded `if (x == 1)` code = x, `if (x < 5)` code = x, code = x & 0xff (unconditional and under `if (x > 0x100)`); --panic-error-codes default {1}, {1, 0x11} and * (any)."""
+    from vlib import asm
+    from vlib.artifacts import Fn, TestContract, YICES_COMMAND, run_contract_offline
+
+    x = asm.calldata_arg(0)
+
+    def panic_with(code_items):
+        return asm.selector_word(asm.PANIC_SELECTOR) + [("push", 0), "MSTORE"] + code_items + [("push", 4), "MSTORE",
+                                                                                              ("push", 36), ("push", 0), "REVERT"]
+
+    fns = {
+        "uncond": Fn("check_p_uncond(uint256 x)", panic_with(x)),
+        "guarded": Fn("check_p_guarded(uint256 x)", asm.if_then(asm.eq_const(x, 1), panic_with(x))),
+        "masked": Fn("check_p_masked(uint256 x)", panic_with(x + [("push", 0xFF), "AND"])),
+        "range": Fn("check_p_range(uint256 x)", asm.if_then(x + [("push", 5), "SWAP1", "LT"], panic_with(x))),  # if (x < 5) Panic(x)
+        "masked_range": Fn("check_p_masked_range(uint256 x)",
+                           asm.if_then(x + [("push", 0x100), "LT"], panic_with(x + [("push", 0xFF), "AND"]))),  # if (x > 0x100)
+        "literal": Fn("check_p_literal(uint256 x)", asm.if_then(asm.eq_const(x, 1), asm.panic(1))),  # control: literal code
+    }
+    c = TestContract("PanicCode", list(fns.values()))
+    inputs = [0, 1, 2, 0x11, 0x12, 0x101, 0x111, (1 << 256) - 1]
+    p = [e2e.Param("uint256", "x")]
+    batch = e2e.RefBatch()
+    batch.world(c)
+    idx = {}
+    for name, fn in fns.items():
+        canon = fn.sig.split("(")[0] + "(uint256)"
+        for v in inputs:
+            batch.load(0)
+            idx[(name, v)] = batch.call(e2e.FOUNDRY_TEST, e2e.calldata(canon, p, [v]))
+    batch.run(ctx)
+    for cfg_text in (None, "0x01,0x11", "*"):
+        codes = _codes(cfg_text)
+        kw = {} if cfg_text is None else {"panic_error_codes": cfg_text}
+        run = run_contract_offline(c, solver_command=YICES_COMMAND, solver_timeout_assertion="4000ms", **kw)
+        for name, fn in fns.items():
+            canon = fn.sig.split("(")[0] + "(uint256)"
+            r = run.by_name.get(canon)
+            verdict = VERDICT.get(r.exitcode, str(r.exitcode)) if r is not None else "MISSING"
+            failing = [v for v in inputs if batch.outcome(idx[(name, v)]).fails(codes)]
+            ctx.case(f"symbolic-panic-code|{name}|{cfg_text}")
+            ctx.count(f"symbolic-panic-code:{name}:codes={cfg_text or 'default'}:{verdict}:{'violable' if failing else 'holds'}")
+            flagged = _flagged(run, canon)
+            if verdict == "PASS" and failing and not flagged:
+                key = ("pass-on-violable-test|panic-code-from-symbolic-word" if name != "literal"
+                       else "pass-on-violable-test|panic-code-literal")
+                ctx.violation(
+                    key,
+                    f"PanicCode.{canon} ({name}: Panic code taken from the parameter) reported PASS with --panic-error-codes "
+                    f"{cfg_text or '0x01 (default)'} and no warning, but x = {failing[0]:#x} ends in Panic({batch.outcome(idx[(name, failing[0])]).panic_code():#x}) "
+                    f"on the reference EVM (Output.is_panic_of: a symbolic code is not `in` the configured set)",
+                    {"kind": "symbolic-panic-code"})
 
 
 def harvest_pool():
@@ -271,6 +330,7 @@ def correspond(ctx):
             return [all_combos[k % len(all_combos)]]
         return all_combos
 
+    check_symbolic_panic_code(ctx)
     specs = []
     # corpus first
     cdir = VERIF / "corpus" / "C03"
@@ -284,6 +344,12 @@ def correspond(ctx):
                                "siblings": {"shape": "dynlen-bytes", "form": "mul", "violable_at": 1, "kind": "panic"}}))
     specs.append((12, "Sib1", {"pool": pool, "ntests": 0, "cache_solver": True, "solver": "z3",
                                "siblings": {"shape": "dynlen-3way", "form": "mul", "violable_at": 2, "kind": "panic"}}))
+    # directed: one sibling path learns x == c1, the other re-reads x and fails for x == c2 (both exploration orders)
+    for j, sub in enumerate([{"learn_on": "fall", "deep": False, "use": "eq", "kind": "panic"},
+                             {"learn_on": "fall", "deep": True, "use": "add", "kind": "flag"},
+                             {"learn_on": "taken", "deep": False, "use": "mem", "kind": "assertTrue"},
+                             {"learn_on": "fall", "deep": False, "use": "mem", "kind": "panic"}]):
+        specs.append((21 + j, f"Subst{j}", {"pool": pool, "ntests": 0, "subst": sub}))
     nsib = ctx.scale(6, 120)
     for j in range(nsib):
         kw = {"pool": pool, "ntests": 0, "siblings": {"violable_at": j}, "solver": "yices"}
@@ -310,6 +376,8 @@ def correspond(ctx):
             kw["touch"] = True
         if i % 2 == 0:
             kw["loops"] = True
+        if i % 4 == 3:
+            kw["subst"] = True
         if i % 6 == 5:
             kw["gen_panic_codes"] = (1, 0x11, 0x32)
             kw["panic_error_codes"] = ctx.rng.choice(["0x11", "0x01,0x32", "*"])
@@ -328,6 +396,9 @@ def correspond(ctx):
 
 
 def replay(ctx, data) -> bool:
+    if data.get("kind") == "symbolic-panic-code":
+        check_symbolic_panic_code(ctx)
+        return bool(ctx.violations)
     spec = data.get("contract")
     if not spec:
         return False
